@@ -139,6 +139,8 @@ class Cx:
         o = Cx.of(o)
         if o.im == 0 and _exact(o.re) and Fraction(o.re).denominator == 1:
             k = int(o.re)
+            if abs(k) > 64:
+                raise Undefined("exponent outside the exact range")
             if k >= 0:
                 r = Cx(1)
                 for _ in range(k):
